@@ -378,7 +378,7 @@ def selftest():
     finally:
         os.unlink(f)
         shutil.rmtree(tdir, ignore_errors=True)
-    snap = lambda e: e["ev"] in ("op", "handled") and any(v for v in e["st"]["idx"].values())
+    snap = lambda e: e["ev"] in ("op", "scanned") and any(v for v in e["st"]["idx"].values())
     t = next((t for t in traces if any(snap(e) for e in t)), None)
     if t is None:
         print("selftest trace validation: no recorded trace with a non-empty snapshot")
@@ -662,7 +662,7 @@ def trace_to_row(trace_lines, init_dirs, init_exists):
     hist = [{"a": "init", "d": "", "n": "", "c": 0, "w": 1, "nd": init_dirs, "na": True, "ex": init_exists}]
     names = {"CreateWrite": "createwrite", "Rewrite": "rewrite", "RenameWithin": "renamewithin", "MoveIn": "movein", "MoveOut": "moveout",
              "RemoveFile": "removefile", "Rmdir": "rmdir", "Mkdir": "mkdir", "RenameDirAway": "renamediraway", "ReaderRead": "read", "ReaderFetch": "fetch",
-             "GorRecv": "recv", "GorExit": "exit", "GorHandle": "handle", "Query": "query", "Configure": "configure", "Shortage": "shortage"}
+             "GorRecv": "recv", "GorExit": "exit", "GorHandle": "handle", "GorScan": "scan", "Query": "query", "Configure": "configure", "Shortage": "shortage"}
     for l in trace_lines:
         m = _LABEL.match(l)
         if not m or m.group(1) not in names:
@@ -678,7 +678,7 @@ def trace_to_row(trace_lines, init_dirs, init_exists):
             e["d"], e["n"] = args[0], args[1]
         elif a in ("renamewithin", "moveout", "rmdir", "mkdir", "renamediraway"):
             e["d"] = args[0]
-        elif a in ("read", "fetch", "recv", "exit", "handle"):
+        elif a in ("read", "fetch", "recv", "exit", "handle", "scan"):
             e["w"] = int(args[0])
         elif a == "configure":
             mm = _re.match(r"\{(.*)\},\s*(TRUE|FALSE)", m.group(2))
@@ -825,12 +825,12 @@ def auto_family(prop, tier, seed, mc_cfgs, gen_runs, directed, extra_rule):
 def c11(prop, tier, seed):
     if tier == "quick":
         return auto_family(prop, tier, seed, ["CacheAuto_quick.cfg", "CacheAuto_away.cfg"], [("CacheAuto_gen1.cfg", 40, 40), ("CacheAuto_gen3.cfg", 15, 40)],
-                           [("CacheAuto_quick.cfg", [("FIX_CREATE", []), ("FIX_READD", [("MaxFsOps = 4", "MaxFsOps = 5")])]),
-                            ("CacheAuto_away.cfg", [("FIX_RENAMEDIR", [])])], "The rename-away history class (outside the statement's list) is included.")
+                           [("CacheAuto_quick.cfg", [("FIX_CREATE", []), ("FIX_READD", [("MaxFsOps = 4", "MaxFsOps = 5"), ("FIX_SCANWATCHED = TRUE", "FIX_SCANWATCHED = FALSE")]), ("FIX_SCANWATCHED", [("MaxFsOps = 4", "MaxFsOps = 5")])]),
+                            ("CacheAuto_away.cfg", [("FIX_RENAMEDIR", []), ("FIX_SCANWATCHED", [])])], "The rename-away history class (outside the statement's list) is included.")
     return auto_family(prop, tier, seed, ["CacheAuto_thorough.cfg", "CacheAuto_2dir.cfg", "CacheAuto_away.cfg"],
                        [("CacheAuto_gen1.cfg", 400, 40), ("CacheAuto_gen2.cfg", 300, 60), ("CacheAuto_gen3.cfg", 200, 40)],
-                       [("CacheAuto_quick.cfg", [("FIX_CREATE", []), ("FIX_READD", [("MaxFsOps = 4", "MaxFsOps = 5")])]),
-                        ("CacheAuto_away.cfg", [("FIX_RENAMEDIR", [])])], "The rename-away history class (outside the statement's list) is included.")
+                       [("CacheAuto_quick.cfg", [("FIX_CREATE", []), ("FIX_READD", [("MaxFsOps = 4", "MaxFsOps = 5"), ("FIX_SCANWATCHED = TRUE", "FIX_SCANWATCHED = FALSE")]), ("FIX_SCANWATCHED", [("MaxFsOps = 4", "MaxFsOps = 5")])]),
+                        ("CacheAuto_away.cfg", [("FIX_RENAMEDIR", []), ("FIX_SCANWATCHED", [])])], "The rename-away history class (outside the statement's list) is included.")
 
 
 @check("C20")
